@@ -336,6 +336,81 @@ fn run_history(hist: &[usize], alpha: &[Call]) -> Result<Option<String>, String>
     Ok(None)
 }
 
+
+/// Batch sweep: every batch of length 0..=max over a three-name pool (rules: Vec and filtering
+/// iterator), a two-name pool (functions: cacheable and not) and a two-name pool (symbols), each
+/// after every one-call prefix (nothing, a rule, a function, a symbol).  A name repeated anywhere
+/// in a batch -- adjacent or not, first / middle / last -- is refused exactly as if the items had
+/// been added one by one.
+fn batch_alphabet(max: usize) -> (Vec<Call>, usize) {
+    let mut v = vec![Call::Rule("A", 1), Call::Rule("C", 2), Call::Func("f"), Call::Func("g"), Call::Symbol("s", 11)];
+    let prefixes = v.len();
+    fn words<T: Copy>(pool: &[T], max: usize) -> Vec<Vec<T>> {
+        let mut out: Vec<Vec<T>> = vec![vec![]];
+        let mut last: Vec<Vec<T>> = vec![vec![]];
+        for _ in 0..max {
+            let mut next = Vec::new();
+            for w in &last {
+                for &x in pool {
+                    let mut n = w.clone();
+                    n.push(x);
+                    next.push(n);
+                }
+            }
+            out.extend(next.iter().cloned());
+            last = next;
+        }
+        out
+    }
+    for w in words(&["A", "B", "C"], max) {
+        let b: Vec<(&'static str, i128)> = w.iter().enumerate().map(|(i, n)| (*n, 30 + i as i128)).collect();
+        v.push(Call::Rules(b.clone()));
+        v.push(Call::RulesIter(b));
+    }
+    for w in words(&["f", "g"], max) {
+        v.push(Call::Funcs(w.clone()));
+        v.push(Call::FuncsNc(w));
+    }
+    for w in words(&["s", "t"], max) {
+        let b: Vec<(&'static str, i128)> = w.iter().enumerate().map(|(i, n)| (*n, 40 + i as i128)).collect();
+        v.push(Call::Symbols(b.clone()));
+        v.push(Call::SymbolsAppend(b));
+    }
+    (v, prefixes)
+}
+
+fn batch_sweep(tier: Tier) -> (Acc, u64) {
+    let max = tier.pick(5, 7);
+    let (alpha, prefixes) = batch_alphabet(max);
+    let hists: Vec<Vec<usize>> = (prefixes..alpha.len())
+        .flat_map(|b| std::iter::once(vec![b]).chain((0..prefixes).map(move |p| vec![p, b])))
+        .collect();
+    let n = hists.len() as u64;
+    let acc = hists
+        .into_par_iter()
+        .map(|hist| {
+            let mut acc = Acc::new();
+            acc.count("executions", 1);
+            match run_history(&hist, &alpha) {
+                Ok(None) => acc.outcome("batch-agrees"),
+                Ok(Some(desc)) => {
+                    acc.outcome("violation");
+                    let names: Vec<String> = hist.iter().map(|&i| format!("{:?}", alpha[i])).collect();
+                    acc.violation(Violation {
+                        sig: format!("batch/{}", desc.chars().filter(|c| !c.is_ascii_digit()).take(70).collect::<String>()),
+                        what: format!("builder history {}: {desc}", names.join(" ; ")),
+                        case: json!({"kind": "batch", "max": max, "calls": hist}),
+                        size: names.iter().map(|s| s.len()).sum(),
+                    });
+                }
+                Err(m) => acc.machinery(m),
+            }
+            acc
+        })
+        .reduce(Acc::new, |a, b| a.merge(b));
+    (acc, n)
+}
+
 fn explore_root(first: usize, alpha: &[Call], max_len: usize, acc: &mut Acc) -> TreeStats {
     let n = alpha.len() as u32;
     let res = explore(&[first as u32], None, 200_000_000, |ch, _| {
@@ -664,6 +739,11 @@ pub fn run(tier: Tier) -> i32 {
         rep.bound("word_sweep", format!("every lower-case word of length <= {}, {} plausible keyword words in 6 spellings: {n} names", tier.pick(3, 4), PLAUSIBLE_WORDS.len()));
         rep.absorb(wacc);
     }
+    {
+        let (bacc, n) = batch_sweep(tier);
+        rep.bound("batch_sweep", format!("every batch of length <= {} over 3 rule names / 2 function names / 2 symbol names, alone and after each of 5 one-call prefixes: {n} histories", tier.pick(5, 7)));
+        rep.absorb(bacc);
+    }
     let alpha = alphabet();
     let max_len = tier.pick(5, 6);
     {
@@ -851,9 +931,13 @@ pub fn replay(case: &serde_json::Value) -> i32 {
     if case.get("kind").and_then(|k| k.as_str()) == Some("function-crowd") {
         return super::crowd::replay(case);
     }
-    let alpha = alphabet();
+    let alpha = if case.get("kind").and_then(|k| k.as_str()) == Some("batch") {
+        batch_alphabet(case.get("max").and_then(|m| m.as_u64()).unwrap_or(5) as usize).0
+    } else {
+        alphabet()
+    };
     match case.get("kind").and_then(|k| k.as_str()) {
-        Some("history") => {
+        Some("history") | Some("batch") => {
             let hist: Vec<usize> = case
                 .get("calls")
                 .and_then(|a| a.as_array())
